@@ -4,7 +4,7 @@ from . import _scn
 from .. import gen, oracles as O
 
 EDITS = ["wipe", "flip", "flip_first", "flip_last", "insert", "delete", "truncate", "empty", "append", "cr_insert", "crlf", "bom", "trailing_space", "case", "swap", "swap", "remove", "rmchain"]
-COMMANDS = ["create", "create_sf", "verify", "verifydh", "diff", "info", "infosf", "flatten"]
+COMMANDS = ["create", "create_sf", "verify", "verifydh", "verifydh_co", "diff", "info", "infosf", "flatten"]
 
 
 def base_world(rnd):
@@ -53,6 +53,7 @@ def build(seed):
     c = {"create": {"op": "create", "at": "", "h": ["md5"], "now": "2026-03-01 12:30:00"},
          "create_sf": {"op": "create", "at": "", "h": ["md5"], "sf": ["a.txt"], "now": "2026-03-01 12:30:00"},
          "verify": {"op": "verify", "at": ""}, "verifydh": {"op": "verifydh", "at": ""}, "diff": {"op": "diff", "at": ""},
+         "verifydh_co": dict({"op": "verifydh", "at": "", "co": True}, **({"h": rnd.choice(gen.FORMATS)} if rnd.random() < 0.5 else {})),
          "info": {"op": "info", "at": ""}, "infosf": {"op": "infosf", "at": "", "file": rnd.choice(["a.txt", "a.txt", "s/b.txt", "s/t/c.txt", "s/t/u/d.txt", "x/e.txt"])}, "flatten": {"op": "flatten", "at": ""}}[cmd]
     ops.append(c)
     return {"seed": seed, "profile": "c05", "root": "root", "tree": tree, "ops": ops, "c05": {"hist": hist, "edit": edit, "cmd": cmd, "expect": exp}}
@@ -102,7 +103,7 @@ def duplicated_history_cases(ctx):
         ops.append({"op": "tamper", "hist": victim, "gen": rnd.randint(0, 3), "kind": edit, "pos": rnd.randint(0, 10**6), "bit": rnd.randint(0, 7), "keep_mtime": True})
         cmd = rnd.choice(COMMANDS)
         c = {"create": {"op": "create", "at": "", "h": ["md5"], "now": "2026-03-01 12:30:00"}, "create_sf": {"op": "create", "at": "", "h": ["md5"], "sf": ["top.txt"], "now": "2026-03-01 12:30:00"},
-             "verify": {"op": "verify", "at": ""}, "verifydh": {"op": "verifydh", "at": ""}, "diff": {"op": "diff", "at": ""}, "info": {"op": "info", "at": ""},
+             "verify": {"op": "verify", "at": ""}, "verifydh": {"op": "verifydh", "at": ""}, "verifydh_co": {"op": "verifydh", "at": "", "co": True}, "diff": {"op": "diff", "at": ""}, "info": {"op": "info", "at": ""},
              "infosf": {"op": "infosf", "at": "", "file": "top.txt"}, "flatten": {"op": "flatten", "at": ""}}[cmd]
         ops.append(c)
         scs.append({"seed": i, "profile": "c05-duplicate", "impl_only": True, "root": "root", "tree": tree, "ops": ops, "c05": {"hist": victim, "edit": edit, "cmd": cmd, "expect": 33 if edit == "remove" else 31}})
